@@ -1103,13 +1103,13 @@ func init() {
 		Streams: []fw.Stream{
 			{Name: "probes", Quick: len(c16Probes), Thorough: len(c16Probes), Run: c16RunProbes},
 			{Name: "sweep", Quick: 256, Thorough: 256, Run: c16RunSweep},
-			{Name: "number", Quick: 300000, Thorough: 9000000, Run: c16RunNumber},
-			{Name: "url", Quick: 300000, Thorough: 9000000, Run: c16RunURL},
-			{Name: "datauri", Quick: 500000, Thorough: 15000000, Run: c16RunDataURI},
-			{Name: "mediatype", Quick: 300000, Thorough: 9000000, Run: c16RunMediatype},
-			{Name: "fold", Quick: 300000, Thorough: 9000000, Run: c16RunFold},
-			{Name: "hash", Quick: 150000, Thorough: 4000000, Run: c16RunHash},
-			{Name: "arbitrary", Quick: 250000, Thorough: 7000000, Run: c16RunArbitrary},
+			{Name: "number", Quick: 300000, Thorough: 18000000, Run: c16RunNumber},
+			{Name: "url", Quick: 300000, Thorough: 18000000, Run: c16RunURL},
+			{Name: "datauri", Quick: 500000, Thorough: 30000000, Run: c16RunDataURI},
+			{Name: "mediatype", Quick: 300000, Thorough: 18000000, Run: c16RunMediatype},
+			{Name: "fold", Quick: 300000, Thorough: 18000000, Run: c16RunFold},
+			{Name: "hash", Quick: 150000, Thorough: 8000000, Run: c16RunHash},
+			{Name: "arbitrary", Quick: 250000, Thorough: 14000000, Run: c16RunArbitrary},
 		},
 	})
 }
